@@ -103,11 +103,60 @@ def effects(facts, body, depth=0):
     return out
 
 
-def call_effects(facts, it, bb):
-    """Effects of the single call terminating block bb, expressed on the caller's parameters."""
+_must_memo = {}
+
+
+def must_effects(facts, body, depth=0):
+    """The subset of effects(body) that happens on EVERY path through body (straight-line writes, and calls that lie on every
+    path and whose own effect is a must-effect).  Effects inside loops are not included: they happen once per iteration at most."""
+    key = (facts.serial, body.uid)
+    if key in _must_memo:
+        return _must_memo[key]
+    if depth > 8:
+        return set()
+    _must_memo[key] = set()
+    from .ordset import Reach, Evaluator
+    it = interp(facts, body)
+    rc = Reach(facts, body, Evaluator(facts))
+    out = set()
+    for w in it.writes.values():
+        tgt = loc_target(it, w.loc)
+        if tgt is not None and rc.must_pass([w.bb]):
+            out.add(Effect(tgt[0], tgt[1], tgt[2], 'assign', tgt[3]))
+    for bb in it.calls:
+        if rc.must_pass([bb]):
+            out |= call_effects(facts, it, bb, must_only=True, _depth=depth + 1)
+    _must_memo[key] = out
+    return out
+
+
+def call_effects(facts, it, bb, must_only=False, _depth=0):
+    """Effects of the single call terminating block bb, expressed on the caller's parameters.
+    must_only: only what the callee does on every one of its paths (for obligations: "this call does X")."""
     c = it.calls.get(bb)
     if c is None:
         return set()
+    if must_only:
+        info0 = cinfo(c.cid)
+        cb0 = facts.by_uid.get(info0['uid']) if info0['local'] else None
+        if cb0 is not None and not cb0.derived:
+            allowed = must_effects(facts, cb0, _depth)
+            full = call_effects(facts, it, bb)
+            # translate the callee-side must set the same way the full set was translated: keep an effect of the full set only if
+            # the callee-side effect it came from is a must-effect
+            out0 = set()
+            for i, a in enumerate(c.args):
+                if a.is_mut_ref and a.loc is not None and (bb, i) in it.muts:
+                    tgt = loc_target(it, a.loc)
+                    if tgt is None:
+                        continue
+                    for e in allowed:
+                        if e.param == i + 1:
+                            if tgt[2] == 'w':
+                                out0.add(Effect(tgt[0], tgt[1] + e.path, e.kind, e.how, e.sub))
+                            else:
+                                out0.add(Effect(tgt[0], tgt[1], 'ew', e.how, tgt[3] + e.path + e.sub))
+            return out0 & full if full else out0
     out = set()
     info = cinfo(c.cid)
     callee_body = facts.by_uid.get(info['uid']) if info['local'] else None
